@@ -12,8 +12,8 @@ def plan(tier, seed):
                    prefix="C12")
     try:
         from . import C10
-        js += C10.capacity_jobs(tier, seed)
-    except Exception:
+        js += C10.capacity_jobs(tier, seed, prop="C12")
+    except ImportError:
         pass
     extra = dict(
         explanation="Bounded symbolic model checking of the LLVM IR of the generated C: every load, store and memcpy "
@@ -31,7 +31,7 @@ def plan(tier, seed):
 
 def post(results, tier, seed):
     for r in results:
-        fs = [f for f in r.get("findings", []) if f.get("kind") in SAFETY or f.get("kind") == "capacity"]
+        fs = [f for f in r.get("findings", []) if f.get("kind") in SAFETY or str(f.get("cls", "")).startswith("C10:")]
         if r["status"] == "violation" and not fs:
             r["status"] = "holds"
         r["findings"] = fs
